@@ -37,7 +37,7 @@ FAMILIES = ["buffer-stress", "exact-chain", "stripe-stress", "exact-dag", "alias
 
 
 def gen_cases(tier, seed):
-    return campaign.gen_cases(tier, seed, 2, 560, 12000, families=FAMILIES, cfg_hook=cfg_hook, extra=[("shape-ops", 24, 500), ("approx-tail2", 12, 300)])
+    return campaign.gen_cases(tier, seed, 2, 560, 12000, families=FAMILIES, cfg_hook=cfg_hook, extra=[("shape-ops", 24, 500), ("approx-tail2", 12, 300), ("grouped-conv", 8, 200)])
 
 
 def check_artefact(c, viol, counters, sets):
